@@ -227,7 +227,8 @@ theorem runClosures_frame {τ ω : Type} (scripts : HId → Scripts ω) (kind : 
     (runClosures scripts kind who see apply src hs s u).1.payloads = s.payloads ∧
     (runClosures scripts kind who see apply src hs s u).1.vm = s.vm ∧
     (runClosures scripts kind who see apply src hs s u).1.descs = s.descs ∧
-    (runClosures scripts kind who see apply src hs s u).1.ord = s.ord := by
+    (runClosures scripts kind who see apply src hs s u).1.ord = s.ord ∧
+    (runClosures scripts kind who see apply src hs s u).1.fault = s.fault := by
   induction hs generalizing s u with
   | nil => simp [runClosures]
   | cons h hs ih =>
@@ -415,19 +416,24 @@ theorem afterVm_good {s : St} (h : Good cfg s) (n : Nat) (vm' : SelVM.Vm) (infos
     obtain ⟨hw, hrm⟩ := startMatchingInfos_good infos hd h.wf
     exact ⟨hw, fun ho => ⟨by show d.removedContent = 0; rw [hrm]; exact (h.obs ho).1, (h.obs ho).2⟩⟩
 
+theorem startTagCore_good {s : St} (h : Good cfg s) (name : LocalName) (ns : Model.Ns) :
+    Good cfg (startTagCore s name ns).1 := by
+  unfold startTagCore
+  split
+  · exact h
+  · rename_i vm _
+    split
+    · exact h
+    · dsimp only
+      split <;> exact afterVm_good h _ _ _
+    · exact h.of_eq rfl rfl
+
 theorem startTag_good {s : St} (h : Good cfg s) (name : LocalName) (ns : Model.Ns) :
     Good cfg (startTag s name ns).1 := by
   unfold startTag
   split
   · exact h
-  · split
-    · exact h
-    · rename_i vm _
-      split
-      · exact h
-      · dsimp only
-        split <;> exact afterVm_good h _ _ _
-      · exact h.of_eq rfl rfl
+  · exact startTagCore_good (s := { s with ord := s.ord + 1 }) (h.of_eq rfl rfl) name ns
 
 theorem auxInfo_good {s : St} (h : Good cfg s) (info : AuxInfo) : Good cfg (auxInfo s info).1 := by
   unfold auxInfo
